@@ -123,8 +123,9 @@ Proof.
 Qed.
 
 Definition value_back (v0 : value) : Prop :=
-  forall fuel s rest, pt s = item_toks (value_items v0) ++ rest -> (length (wrest s) < fuel)%nat ->
-  exists v s', pop_value fuel s = WOk v s' /\ value_doc v = value_doc v0 /\ pt s' = rest /\
+  forall fuel depth s rest, pt s = item_toks (value_items v0) ++ rest -> (length (wrest s) < fuel)%nat ->
+  depth + vdepth v0 <= max_value_depth ->
+  exists v s', pop_value fuel depth s = WOk v s' /\ value_doc v = value_doc v0 /\ pt s' = rest /\
                (length (wrest s') < length (wrest s))%nat.
 
 Lemma pt_length s : length (pt s) = length (wrest s).
@@ -171,7 +172,7 @@ Qed.
 Lemma pop_value_back : forall v0, vlx v0 -> value_back v0.
 Proof.
   apply (value_ind' (fun v0 => vlx v0 -> value_back v0)).
-  - intros t0 s0 e0 H fuel s rest Hp Hf. inversion H; subst. destruct fuel as [|f]; [lia|].
+  - intros t0 s0 e0 H fuel depth s rest Hp Hf Hdep. inversion H; subst. destruct fuel as [|f]; [lia|].
     cbn [value_items item_toks app] in Hp. rewrite (vlit_ctyp t0) in Hp by assumption.
     destruct (pt_cons s _ _ Hp) as (t & rs & Hr & Et & Hrs & Epop & Hnt). cbn [fst] in Hnt.
     cbn [pop_value]. rewrite Hnt.
@@ -181,14 +182,16 @@ Proof.
     exists (VTok t (tstart t) (tend t)), (mkW rs (Some t)). repeat split; auto.
     + cbn. rewrite Et. reflexivity.
     + rewrite Hr. cbn. lia.
-  - intros vs0 s0 e0 IH H fuel s rest Hp Hf. inversion H as [|vs1 s1 e1 Hvs]; subst.
+  - intros vs0 s0 e0 IH H fuel depth s rest Hp Hf Hdep. inversion H as [|vs1 s1 e1 Hvs]; subst.
     destruct fuel as [|f]; [lia|].
+    assert (Hlt : N.leb max_value_depth depth = false).
+    { apply N.leb_gt. cbn [vdepth] in Hdep. lia. }
     cbn [value_items item_toks] in Hp. rewrite item_toks_app, item_toks_sep_concat in Hp.
     cbn [item_toks app] in Hp. rewrite <- app_assoc in Hp. cbn [app] in Hp.
     destruct (pt_cons s _ _ Hp) as (op & rs & Hr & Et & Hrs & Epop & Hnt). cbn [fst] in Hnt.
     cbn [pop_value]. rewrite Hnt. cbn [tt_eqb tt_code N.eqb Pos.eqb is_literal].
     replace (tt_eqb LBRACK IDENT) with false by reflexivity. replace (tt_eqb LBRACK LBRACK) with true by reflexivity.
-    rewrite Epop. cbn [wbind].
+    rewrite Epop. cbn [wbind]. rewrite Hlt.
     destruct vs0 as [|x0 r0].
     + cbn [map sep_concat app] in Hrs.
       assert (Hb : tt_eqb (next_type (mkW rs (Some op))) RBRACK = true).
@@ -205,12 +208,15 @@ Proof.
         inversion Hvx; subst. rewrite (vlit_ctyp t1) by assumption. cbn [fst].
         destruct (ty t1); try discriminate; reflexivity. }
       rewrite Hb.
-      destruct (pop_elems_back (pop_value f) f op (x0 :: r0)) with (fuel2 := S (length rs)) (acc := @nil value)
+      destruct (pop_elems_back (pop_value f (N.succ depth)) f op (x0 :: r0)) with (fuel2 := S (length rs)) (acc := @nil value)
                  (s := mkW rs (Some op)) (rest := rest) as (vs & s' & E & Hd & Hp' & Hl').
       * (* every element can be read back by the recursive parser *)
-        clear - IH Hvs. induction IH as [|y ys Hy Hys IHys]; [constructor|].
-        inversion Hvs as [|? ? [Hvy _] Hvys]; subst. constructor; [|apply IHys; exact Hvys].
-        split; [exact Hvy|]. intros s rest Hp Hb. apply (Hy Hvy f s rest Hp Hb).
+        assert (Hde : Forall (fun y => N.succ depth + vdepth y <= max_value_depth) (x0 :: r0)).
+        { cbn [vdepth] in Hdep. clear - Hdep. generalize dependent (x0 :: r0). intros l. induction l as [|y ys IHl]; intros Hd; [constructor|].
+          cbn [fold_right] in Hd. constructor; [lia|]. apply IHl. lia. }
+        clear - IH Hvs Hde. induction IH as [|y ys Hy Hys IHys]; [constructor|].
+        inversion Hvs as [|? ? [Hvy _] Hvys]; subst. inversion Hde; subst. constructor; [|apply IHys; assumption].
+        split; [exact Hvy|]. intros s rest Hp Hb. apply (Hy Hvy f (N.succ depth) s rest Hp Hb). assumption.
       * discriminate.
       * rewrite pt_mk. exact Hrs.
       * cbn. lia.
@@ -219,10 +225,11 @@ Proof.
         cbn [value_doc]. rewrite Hd. repeat split; auto. cbn [wrest] in Hl'. rewrite Hr. cbn. lia.
 Qed.
 
-Lemma pop_value_top_back v0 s rest : vlx v0 -> pt s = item_toks (value_items v0) ++ rest ->
+Lemma pop_value_top_back v0 s rest : vlx v0 -> vdepth v0 <= max_value_depth ->
+  pt s = item_toks (value_items v0) ++ rest ->
   exists v s', pop_value_top s = WOk v s' /\ value_doc v = value_doc v0 /\ pt s' = rest.
 Proof.
-  intros H Hp. destruct (pop_value_back v0 H (S (length (wrest s))) s rest Hp ltac:(lia)) as (v & s' & E & A & B & _).
+  intros H Hd Hp. destruct (pop_value_back v0 H (S (length (wrest s))) 0 s rest Hp ltac:(lia) ltac:(lia)) as (v & s' & E & A & B & _).
   exists v, s'. auto.
 Qed.
 
@@ -267,7 +274,7 @@ Proof.
     assert (Hn : next_type s = STRING) by (rewrite next_type_pt, Hp; reflexivity).
     rewrite Hn.
     assert (Hv : vlx (VTok (mkTok STRING (lit tk) pos0 pos0) pos0 pos0)) by (constructor; [exact I|reflexivity]).
-    destruct (pop_value_top_back _ s rest Hv Hp) as (v & s' & E & Hdv & Hp'). rewrite E. cbn [wbind].
+    destruct (pop_value_top_back _ s rest Hv ltac:(cbn; unfold max_value_depth; lia) Hp) as (v & s' & E & Hdv & Hp'). rewrite E. cbn [wbind].
     eexists _, s'. split; [reflexivity|]. unfold tag_doc. cbn. rewrite Eb, Hdv. cbn. unfold etok. cbn. rewrite Hb. auto.
 Qed.
 
@@ -392,16 +399,16 @@ Definition fdoc_of (f : fragment) : fdoc :=
   | FClose _ => DX
   end.
 
-Lemma walk_value_assign_back r app v0 c0 s rest : vlx v0 ->
+Lemma walk_value_assign_back r app v0 c0 s rest : vlx v0 -> vdepth v0 <= max_value_depth ->
   pt s = (ASSIGN, [61]) :: item_toks (value_items v0) ++ item_toks (comment_items c0) ++ eol_tok :: rest ->
   exists f s', walk_value_assign r app s = WOk f s' /\
                fdoc_of f = DA (ref_doc r) app (value_doc v0) (comment_doc c0) /\ pt s' = rest.
 Proof.
-  intros Hv Hp. unfold walk_value_assign.
+  intros Hv Hdv0 Hp. unfold walk_value_assign.
   destruct (pt_cons s _ _ Hp) as (t & rs & Hr & Et & Hrs & Epop & _). rewrite Epop. cbn [wbind].
   unfold etok in Et. injection Et as Et1 _. rewrite Et1. cbn [tt_eqb tt_code N.eqb Pos.eqb negb].
   replace (tt_eqb ASSIGN ASSIGN) with true by reflexivity. cbn [negb].
-  destruct (pop_value_top_back v0 (mkW rs (Some t)) (item_toks (comment_items c0) ++ eol_tok :: rest) Hv) as (v & s2 & Ev & Hdv & Hp2); [rewrite pt_mk; exact Hrs|].
+  destruct (pop_value_top_back v0 (mkW rs (Some t)) (item_toks (comment_items c0) ++ eol_tok :: rest) Hv Hdv0) as (v & s2 & Ev & Hdv & Hp2); [rewrite pt_mk; exact Hrs|].
   rewrite Ev. cbn [wbind].
   destruct (end_statement_back c0 s2 rest Hp2) as (c & s3 & Ee & Hdc & Hp3). rewrite Ee. cbn [wbind].
   eexists _, s3. split; [reflexivity|]. cbn. rewrite Hdv, Hdc. auto.
@@ -418,7 +425,7 @@ Lemma walk_statement_assign_back a0 s rest : alx a0 ->
   pt s = item_toks (assign_items a0) ++ eol_tok :: rest ->
   exists f s', walk_statement s = WOk f s' /\ fdoc_of f = fdoc_of (FAssign a0) /\ pt s' = rest.
 Proof.
-  intros (Hr & Hv & Hc & He) Hp. rewrite item_toks_assign, <- !app_assoc in Hp.
+  intros (Hr & Hv & Hc & He & Hdp) Hp. rewrite item_toks_assign, <- !app_assoc in Hp.
   unfold walk_statement.
   destruct (pop_reference_back s (akey a0) _ Hr Hp) as (r & s1 & E & Hl & _ & Hp1).
   { destruct (aappend a0); cbn; discriminate. }
@@ -430,12 +437,12 @@ Proof.
     destruct (pt_cons s1 _ _ Hp1) as (tp & rs & Hrs0 & _ & Hrs & Epop & _). rewrite Epop. cbn [wbind].
     assert (Hn3 : tt_eqb (next_type (mkW rs (Some tp))) ASSIGN = true) by (rewrite next_type_pt, pt_mk, Hrs; reflexivity).
     rewrite Hn3. cbn [negb].
-    destruct (walk_value_assign_back r true (avalue a0) (acomment a0) (mkW rs (Some tp)) rest Hv) as (f & s' & Ew & Hd & Hp').
+    destruct (walk_value_assign_back r true (avalue a0) (acomment a0) (mkW rs (Some tp)) rest Hv Hdp) as (f & s' & Ew & Hd & Hp').
     { rewrite pt_mk. exact Hrs. }
     exists f, s'. split; [exact Ew|]. split; [|exact Hp']. rewrite Hd. cbn. unfold ref_doc. rewrite Hl, Ea. reflexivity.
   - assert (Hn1 : tt_eqb (next_type s1) ASSIGN = true) by (rewrite next_type_pt, Hp1; reflexivity).
     rewrite Hn1.
-    destruct (walk_value_assign_back r false (avalue a0) (acomment a0) s1 rest Hv Hp1) as (f & s' & Ew & Hd & Hp').
+    destruct (walk_value_assign_back r false (avalue a0) (acomment a0) s1 rest Hv Hdp Hp1) as (f & s' & Ew & Hd & Hp').
     exists f, s'. split; [exact Ew|]. split; [|exact Hp']. rewrite Hd. cbn. unfold ref_doc. rewrite Hl, Ea. reflexivity.
 Qed.
 
